@@ -17,6 +17,7 @@ mod c02;
 mod c03;
 mod c09;
 mod c07;
+mod c06;
 
 use util::Ctx;
 
@@ -55,6 +56,7 @@ fn main() {
         ("gen", "C03") => c03::gen(&mut ctx),
         ("gen", "C09") => c09::gen(&mut ctx),
         ("gen", "C07") => c07::gen(&mut ctx),
+        ("gen", "C06") => c06::gen(&mut ctx),
         _ => { eprintln!("unknown command"); std::process::exit(2); }
     }
     ctx.finish(stats.as_deref());
